@@ -40,10 +40,11 @@ let rec print_dn b = function
     add_tok b ("a" ^ string_of_int (int_of_z n));
     List.iter (print_dn b) items;
     add_tok b ("?" ^ String.init (List.length ks) (fun i -> kind_letter (List.nth ks i)))
-  | DnMap (n, ents, ks) ->
+  | DnMap (n, ents, ks, ps) ->
     add_tok b ("m" ^ string_of_int (int_of_z n));
     List.iter (fun (k, d) -> add_tok b ("k" ^ hex_of_bytes k); print_dn b d) ents;
-    add_tok b ("?" ^ String.init (List.length ks) (fun i -> kind_letter (List.nth ks i)))
+    add_tok b ("?" ^ String.init (List.length ks) (fun i -> kind_letter (List.nth ks i))
+               ^ "/" ^ String.init (List.length ps) (fun i -> kind_letter (List.nth ps i)))
 
 let string_of_dn d = let b = Buffer.create 64 in print_dn b d; Buffer.contents b
 
@@ -205,6 +206,10 @@ let () =
       | [id; script; obs] ->
         (try
            let (m, legal) = run_model script in
-           Printf.printf "%s\t%s\t%s\n" id m (oracle obs legal)
+           let v = oracle obs legal in
+           (* the runner compares model and implementation only on cases the oracle passes; a case that
+              fails with a known class must not hide a disagreement between the two *)
+           let v = if v <> "ok" && m <> obs then v ^ ",model_disagrees" else v in
+           Printf.printf "%s\t%s\t%s\n" id m v
          with e -> Printf.printf "%s\tmodel-exception:%s\tok\n" id (Printexc.to_string e))
       | _ -> ())
